@@ -234,6 +234,7 @@ def outcome_violation(res, s, e, p, r, dbin, known):
 def validate(res, e, cp):
     import math
     p0 = e.paths[0]
+    if p0.outcome == 'limit': return      # decision limit on the witness path: reported as undecided, nothing to compare
     if cp.outcome != p0.outcome:
         res.errors.append({'what': 'translator validation: outcome differs', 'entry': e.name, 'sym': p0.outcome, 'double': cp.outcome}); return
     ids = [x for c in p0.claims for x in c[2:] if x is not None]
